@@ -170,6 +170,11 @@ def _run_stray(desc):
     return sh
 
 
+# kernels whose documented result depends on how the lines are dealt to the threads (a line without dark pixels inherits the average of
+# the previous line OF THE SAME THREAD): DESIGN.md section 8.  They are still required to finish and to write every promised output.
+TEAM_SIZE_DEPENDENT = ("frelon_lines", "frelon_lines_sub")
+
+
 def _run_team(desc):
     """the kernels with OpenMP regions on the vrt runtime with teams of 2 and 3 threads while the runtime reports a LARGER maximum (what
     libgomp does under OMP_THREAD_LIMIT, OMP_DYNAMIC or inside another region): the promised outputs are fully written - the same for two
@@ -202,7 +207,7 @@ def _run_team(desc):
                 sh.violation("team-smaller-than-reported-maximum:output-not-fully-written:%s" % k, dict(case, team=T, reported_max=mx),
                              {"what": "promised outputs differ for two fills of the output arrays"})
                 break
-            if not same_loose(ref, a_):
+            if k not in TEAM_SIZE_DEPENDENT and not same_loose(ref, a_):
                 sh.violation("team-smaller-than-reported-maximum:differs-from-one-thread:%s" % k, dict(case, team=T, reported_max=mx), {})
                 break
         sh.evaluations += 1
